@@ -46,10 +46,10 @@ def main():
                 "demo_fails_with_patch": "demo-with-patch: test result: FAILED" in ll,
                 "demo_passes_without_patch": "clean-demo: test result: ok" in ll,
                 "log_line": ll},
-            "first_run_as_delivered": {"quick_exit": f.get("exit"), "caught": f.get("exit") == 1,
+            "first_run_as_delivered": {"quick_exit": f.get("exit"), "caught": (f.get("exit") == 1) if f.get("exit") is not None else None,
                                        "signatures": f.get("signatures", [])[:4]},
             "my_checks": {"command": "selftest/run_seeded.py --only %s" % d,
-                          "quick_exit": n.get("exit"), "caught": n.get("exit") == 1,
+                          "quick_exit": n.get("exit"), "caught": (n.get("exit") == 1) if n.get("exit") is not None else None,
                           "signatures": n.get("signatures", [])[:4]},
         }
         with open(os.path.join(dd, "meta.json"), "w") as fh:
